@@ -549,6 +549,13 @@ func run(c *lib.Ctx, cs caseT) {
 		ordered := !hasTies(s, post)
 		steps = append(steps, lib.CoqTuple(st.Coq(), obs, RowsCoq(post), lib.CoqBool(ordered)))
 		c.Count("stmt_" + st.Kind)
+		if msApplies(s) {
+			// Corr/C13.v judges this step a second time, against the declarative multiset reference ms_exec
+			c.Count("keyless_step_also_compared_with_coq_multiset_reference")
+			if st.Limit >= 0 {
+				c.Count("keyless_step_with_limit_compared_with_coq_multiset_reference")
+			}
+		}
 		if !succeeded {
 			c.Count("rejected_" + st.Kind)
 			interesting = true
@@ -619,6 +626,20 @@ func run(c *lib.Ctx, cs caseT) {
 	}
 }
 
+// msApplies mirrors Corr/C13.v ms_applies: keyless table, no unique index, no case-insensitive column (the fragment of
+// theorem C13_keyless_editor_refines_multiset).
+func msApplies(s Schema) bool {
+	if len(s.PK) != 0 || len(s.Uniq) != 0 {
+		return false
+	}
+	for _, c := range s.Cols {
+		if c.Ci {
+			return false
+		}
+	}
+	return true
+}
+
 func iv(xs ...int64) Row {
 	r := make(Row, len(xs))
 	for i, x := range xs {
@@ -663,6 +684,28 @@ func corpus() []caseT {
 				{Kind: "insert", Rows: []Row{iv(2, 3)}, Limit: -1},
 				{Kind: "delete", Where: &Pred{Kind: "cmp", Col: 1, Op: "=", V: v(IntV(1))}, Limit: 1},
 				{Kind: "update", Assign: []Assign{{Col: 0, V: IntV(2)}}, Where: &Pred{Kind: "cmp", Col: 1, Op: "=", V: v(IntV(1))}, Limit: -1}}},
+		// keyless table with equal rows: cancel-out of pending adds / deletes (Coq witness kl_rows / kl_upd), LIMIT, all modes
+		{Schema: Schema{Cols: ints(2), PK: []int{}, Uniq: []Unique{}},
+			Stmts: []Stmt{{Kind: "insert", Rows: []Row{iv(1, 0), iv(2, 0), iv(1, 0)}, Limit: -1},
+				{Kind: "update", Assign: []Assign{{Col: 0, Add: true, K: 1}}, Limit: 2},
+				{Kind: "update", Assign: []Assign{{Col: 0, Add: true, K: 1}}, Order: &Order{Col: 0, Desc: true}, Limit: -1},
+				{Kind: "update", Assign: []Assign{{Col: 0, Add: true, K: -1}}, Order: &Order{Col: 0}, Limit: -1},
+				{Kind: "replace", Rows: []Row{iv(2, 0), iv(2, 0)}, Limit: -1},
+				{Kind: "odku", Rows: []Row{iv(2, 0)}, Assign: []Assign{{Col: 1, V: IntV(9)}}, Limit: -1},
+				{Kind: "ignore", Rows: []Row{iv(1, 0), iv(1, 0)}, Limit: -1},
+				{Kind: "update", Assign: []Assign{{Col: 1, V: IntV(0)}}, Limit: -1},
+				{Kind: "delete", Where: &Pred{Kind: "cmp", Col: 0, Op: "=", V: v(IntV(2))}, Limit: 2},
+				{Kind: "delete", Where: &Pred{Kind: "cmp", Col: 0, Op: "=", V: v(IntV(1))}, Limit: -1},
+				{Kind: "delete", Limit: -1}}},
+		// keyless table, case-insensitive column: Insert('a',2) cancels the pending Delete('A',2) (Coq: kl_ci_refuted)
+		{Schema: Schema{Cols: []Col{{Str: true, Ci: true}, {}}, PK: []int{}, Uniq: []Unique{}},
+			Stmts: []Stmt{{Kind: "insert", Rows: []Row{{StrV("a"), IntV(1)}, {StrV("A"), IntV(2)}}, Limit: -1},
+				{Kind: "update", Assign: []Assign{{Col: 1, Add: true, K: 1}}, Order: &Order{Col: 1, Desc: true}, Limit: -1}}},
+		// unique index: the pending delete of (1,5) is overwritten by the delete of the re-added (1,6); GetByCols then finds the
+		// stored (1,5) again, REPLACE deletes it a second time and thereby drops the pending add (1,7) (Coq: uq_stale_refuted)
+		{Schema: Schema{Cols: ints(2), PK: []int{0}, Uniq: []Unique{{Cols: []int{1}, Prefix: []int{0}}}},
+			Stmts: []Stmt{{Kind: "insert", Rows: []Row{iv(1, 5)}, Limit: -1},
+				{Kind: "replace", Rows: []Row{iv(1, 6), iv(1, 7), iv(2, 5)}, Limit: -1}}},
 		// order-dependent key shifts
 		{Schema: Schema{Cols: ints(2), PK: []int{0}, Uniq: []Unique{}},
 			Stmts: []Stmt{{Kind: "insert", Rows: []Row{iv(1, 0), iv(2, 0), iv(3, 0)}, Limit: -1},
